@@ -327,6 +327,10 @@ func (g *gen) families12() {
 	}
 	// extents whose product, or whose product times the element width, overflows 64-bit arithmetic
 	g.overflowFamily()
+	// several initializers in one graph that look alike: identical payload bytes with other dims, other element
+	// type or other encoding, small and large (4 KiB, 64 KiB, 256 KiB payloads); every one must decode to its own
+	// declaration (de-duplication, interning or caching across initializers must not leak shape, type or values)
+	g.pairFamily()
 	// U. byte-level single-fault spaces of small weight-only files, exhaustively
 	for _, b := range weightOnly {
 		g.singleFaultSweep("single-fault-weight-file", b, "bytes", 1)
@@ -449,5 +453,54 @@ func (g *gen) overflowFamily() {
 			g.run(&Case{Family: "extent-overflow", Base: fmt.Sprintf("dt=%d dims=%v raw=%d/%s", tp.DataType, tp.Dims, len(tp.RawData), holder), Reader: "bytes", ZipFail: -1, Data: data,
 				Faults: []medium.Fault{{Kind: "tensor:extent-overflow"}}}, true)
 		})
+	}
+}
+
+func (g *gen) pairFamily() {
+	r := rng.New(rng.Mix(g.cfg.Seed, 0x9a12))
+	mk := func(name string, dt val.DT, dims []int64, raw []byte) *onnx.TensorProto {
+		return &onnx.TensorProto{Name: name, DataType: int32(dt), Dims: dims, RawData: raw}
+	}
+	for _, nbytes := range []int{64, 4096, 65536, 262144} {
+		for _, fill := range []string{"zeros", "ones", "random"} {
+			raw := make([]byte, nbytes)
+			switch fill {
+			case "ones":
+				for i := 0; i+3 < nbytes; i += 4 {
+					raw[i+2], raw[i+3] = 0x80, 0x3f
+				}
+			case "random":
+				for i := range raw {
+					raw[i] = byte(r.U64())
+				}
+				for i := 3; i < nbytes; i += 4 {
+					raw[i] &= 0x3f // keep float32 readings finite-ish and away from NaN
+				}
+			}
+			n4, n8 := int64(nbytes/4), int64(nbytes/8)
+			variants := [][]*onnx.TensorProto{
+				{mk("A", val.Float32, []int64{n4 / 16, 16}, raw), mk("B", val.Float32, []int64{16, n4 / 16}, raw)},
+				{mk("A", val.Float32, []int64{n4}, raw), mk("B", val.Float32, []int64{1, n4}, raw), mk("C", val.Float32, []int64{n4, 1}, raw)},
+				{mk("A", val.Float32, []int64{n4}, raw), mk("B", val.Int32, []int64{n4}, raw), mk("C", val.Uint32, []int64{n4}, raw)},
+				{mk("A", val.Float64, []int64{n8}, raw), mk("B", val.Int64, []int64{2, n8 / 2}, raw), mk("C", val.Float32, []int64{n4}, raw)},
+				{mk("A", val.Float32, []int64{n4}, raw), mk("B", val.Float32, []int64{3}, raw)},          // B malformed
+				{mk("A", val.Float32, []int64{n4}, raw), mk("B", val.Float32, []int64{n4 + 1}, raw)},     // B malformed
+				{mk("A", val.Float32, []int64{n4}, raw), mk("A", val.Float32, []int64{2, n4 / 2}, raw)},  // same name twice
+				{mk("A", val.Uint8, []int64{int64(nbytes)}, raw), mk("B", val.Int8, []int64{int64(nbytes)}, raw), mk("C", val.Bool, []int64{4}, []byte{0, 1, 1, 0})},
+			}
+			for vi, tps := range variants {
+				if !g.mine() || g.stop {
+					continue
+				}
+				gp := &onnx.GraphProto{Name: "g"}
+				for _, tp := range tps {
+					gp.Initializer = append(gp.Initializer, tp)
+					gp.Output = append(gp.Output, &onnx.ValueInfoProto{Name: tp.Name})
+				}
+				mp := &onnx.ModelProto{IrVersion: 7, Graph: gp, OpsetImport: []*onnx.OperatorSetIdProto{{Version: 13}}}
+				data, _ := proto.MarshalOptions{Deterministic: true}.Marshal(mp)
+				g.run(&Case{Family: "initializer-pairs", Base: fmt.Sprintf("%d bytes %s variant %d", nbytes, fill, vi), Reader: "bytes", ZipFail: -1, Data: data}, true)
+			}
+		}
 	}
 }
